@@ -27,7 +27,7 @@ def canon_for(entry, r):
 
 def path(engine, ctx, params):
     """params: fmt, entry, template (list of cp|None)"""
-    it = engine.new_interp(ctx, step_limit=params.get('step_limit', 400000))
+    it = engine.new_interp(ctx, step_limit=params.get('step_limit', 150000))
     fmt = get_format(it, params['fmt'])
     chars, holes = sym_chars(ctx, params['template'])
     entry = params['entry']
@@ -136,7 +136,7 @@ def main(tier, seed):
     n_all = {'parse': 2 if quick else 4, 'multi': 2 if quick else 3, 'parse_chars': 1 if quick else 3, 'truth': 3 if quick else 4, 'budget': 3 if quick else 4,
              'stamp': 3 if quick else 4, 'punct': 2 if quick else 3}
     R.assumptions += ['std APIs (Vec, String, HashSet, iterators, fmt, str::parse) are Python models validated against the native build on every explored path (traces_validated_against_impl) and on the repo\'s own string literals',
-                      'HashSet iteration order modelled as insertion order', 'step budget 400000 MIR blocks per path stands for "terminates"',
+                      'HashSet iteration order modelled as insertion order', 'step budget 150000 MIR basic blocks per path stands for "terminates" (longest terminating path observed < 30000)',
                       'inputs longer than the stated bounds / nesting deeper than the sample corpus are outside the claim']
     # Q-win
     qs = [dict(len=n) for n in range(0, 7 if quick else 13)]
